@@ -27,3 +27,16 @@ Print Assumptions C19_linear_add.
 Theorem C19_grid : forall a d i, 0 < d -> 0 < exp (a + INR i * d) /\ exp (a + INR i * d) < exp (a + INR (S i) * d).
 Proof. exact grid_positive_increasing. Qed.
 Print Assumptions C19_grid.
+
+(* a data set with several wavelengths: the acceptance theta_max is turned into ONE q cut, that of the longest
+   wavelength; every q the transform keeps lies inside the acceptance 2 pi/lam sin(theta_max) of every wavelength
+   of the set, and the cut is the acceptance of one of them *)
+Theorem C19_acceptance : forall twopi lams s q lamj lam, 0 < twopi -> 0 <= s ->
+  Forall (fun x => 0 < x) lams -> In lam lams ->
+  accepted ROps twopi q lamj (make_zaccept ROps twopi lams s) = true -> q <= twopi / lam * s.
+Proof. exact accepted_inside_every_acceptance. Qed.
+Print Assumptions C19_acceptance.
+Theorem C19_acceptance_attained : forall twopi lams s, lams <> [] ->
+  exists lam, In lam lams /\ make_zaccept ROps twopi lams s = twopi / lam * s.
+Proof. exact zaccept_attained. Qed.
+Print Assumptions C19_acceptance_attained.
